@@ -74,7 +74,6 @@ PROTO_PARENT = {
     "Uint32Array.prototype": "%TypedArray%.prototype",
     "Float32Array.prototype": "%TypedArray%.prototype",
 }
-NAMED = [n for n in PROTO_PARENT if not n.startswith("%")]
 
 HOST_VALUE = {"a": 1, "n": {"b": 2}, "l": [5, {"c": 3}]}
 HOST_LIST = [5, 6]
@@ -415,19 +414,15 @@ class World:
 
 
 # --------------------------------------------------------------- JavaScript
-def _named_js():
-    return "\n".join('N("%s", function(){ return %s; });' % (n, n) for n in NAMED)
-
-
-PRELUDE = (
-    """var LOG = [], OUT = [], ACC = {}, R, C, P, NAMED = [];
-function N(name, f) { try { var v = f(); if (v !== undefined && v !== null) NAMED.push([name, v]); } catch (e) {} }
-%s
+# The prelude is assembled per case (parsing it is most of the cost of a case):
+# the identity table names the prototype objects of the kind's chain only, the
+# helpers come in when a step uses them.
+_BASE_JS = """var LOG = [], OUT = [], ACC = {}, R, C, P;
 function IDOF(x) {
   if (x === R) return "R";
   if (x === C) return "C";
   if (x === P) return "P";
-  for (var i = 0; i < NAMED.length; i++) if (NAMED[i][1] === x) return NAMED[i][0];
+%s
   return null;
 }
 function E(v) {
@@ -446,14 +441,17 @@ function S(f) {
   try { r = f(); } catch (e) { r = "throw:" + ((e && e.name) || "?"); }
   OUT.push(r);
 }
-function MKACC(k, hasG, hasS) {
+"""
+_HELPER_JS = {
+    "defacc": """function MKACC(k, hasG, hasS) {
   var d = { enumerable: true, configurable: true };
   if (hasG) d.get = function () { LOG.push("g:" + k + ":" + E(this)); return "G:" + k; };
   if (hasS) d.set = function (v) { LOG.push("s:" + k + ":" + E(this) + ":" + E(v)); };
   ACC[k] = d;
   return d;
 }
-function D(o, k, name) {
+""",
+    "desc": """function D(o, k, name) {
   var d = Object.getOwnPropertyDescriptor(o, k);
   if (d === undefined) return "u";
   var a = ACC[name];
@@ -464,16 +462,27 @@ function D(o, k, name) {
   }
   return "data|" + E(d.value) + "|w=" + d.writable + "|e=" + d.enumerable + "|c=" + d.configurable;
 }
-function KEYS(o) { return "k:" + Object.keys(o).join("|"); }
-function FORIN(o) { var a = []; for (var k in o) a.push(k); return "k:" + a.join("|"); }
-function ENTRIES(o) {
+""",
+    "keys": 'function KEYS(o) { return "k:" + Object.keys(o).join("|"); }\n',
+    "forin": 'function FORIN(o) { var a = []; for (var k in o) a.push(k); return "k:" + a.join("|"); }\n',
+    "entries": """function ENTRIES(o) {
   var a = Object.entries(o), out = [];
   for (var i = 0; i < a.length; i++) out.push(a[i][0] + "=" + E(a[i][1]));
   return "e:" + out.join("|");
 }
-"""
-    % _named_js()
-)
+""",
+}
+_ALWAYS_NAMED = ["Object.prototype", "Array.prototype", "Function.prototype"]
+
+
+def prelude(kind, steps):
+    """(a prototype object that does not exist - `RegExp.prototype` on an unrepaired tree - is undefined
+    and equals no object: E answers undefined / null before IDOF is asked)"""
+    names = holders(kind) + [n for n in _ALWAYS_NAMED if n not in holders(kind)]
+    table = "\n".join('  if (x === %s) return "%s";' % (n, n) for n in names)
+    ops = {st[0] for st in steps}
+    return _BASE_JS % table + "".join(js for op, js in sorted(_HELPER_JS.items()) if op in ops)
+
 
 _VAL_JS = {"u": "undefined", "l": "null"}
 
@@ -559,7 +568,7 @@ def render_step(st, kind):
 
 def script(case, for_node=False):
     kind = KIND[case["kind"]]
-    lines = [PRELUDE]
+    lines = [prelude(kind, case["steps"])]
     if for_node:
         lines.insert(0, '"use strict";')
         if kind["host"]:
